@@ -44,6 +44,7 @@ type Engine struct {
 	modulePath string
 	fileHashes map[string]string
 	guards     map[string]GuardDecl // "pkgpath.Struct.field" -> decl
+	compPkg    map[string]string    // component -> package path of the named type it belongs to
 	tables     map[*ssa.Global]*tableFact
 	addrTaken  map[*ssa.Function]bool
 }
@@ -497,4 +498,54 @@ func (e *Engine) contractFunc(c *Contract) *ssa.Function {
 		}
 	}
 	return nil
+}
+
+// notePkg records which package a heap component belongs to: the package of the (innermost) named type.
+func (e *Engine) notePkg(comp string, t types.Type) {
+	if e.compPkg == nil {
+		e.compPkg = map[string]string{}
+	}
+	if _, ok := e.compPkg[comp]; ok {
+		return
+	}
+	e.compPkg[comp] = corePkg(t)
+}
+
+func corePkg(t types.Type) string {
+	for i := 0; i < 6; i++ {
+		switch x := types.Unalias(t).(type) {
+		case *types.Named:
+			if x.Obj().Pkg() != nil {
+				return x.Obj().Pkg().Path()
+			}
+			return ""
+		case *types.Pointer:
+			t = x.Elem()
+		case *types.Slice:
+			t = x.Elem()
+		case *types.Array:
+			t = x.Elem()
+		case *types.Map:
+			if p := corePkg(x.Elem()); p != "" {
+				return p
+			}
+			t = x.Key()
+		default:
+			return ""
+		}
+	}
+	return ""
+}
+
+// pkgMatches: does a component's package match one of the `preserves` entries (path suffix match)?
+func pkgMatches(pkg string, pats []string) bool {
+	if pkg == "" {
+		return false
+	}
+	for _, p := range pats {
+		if pkg == p || strings.HasSuffix(pkg, "/"+p) {
+			return true
+		}
+	}
+	return false
 }
